@@ -161,7 +161,18 @@ static void mixedHistory(Gen& G, int tier, int minSteps, int maxSteps, int churn
         int r = int(R.below(100));
         if (r < 18) G.genFunction(G.freeSlot(), pool[R.below(uint32_t(pool.size()))], tier ? 30 : 12);
         else if (r < 18 + churnPct) G.emitChurn(all);
-        else G.emitOp(ops, all);
+        else if (G.emitOp(ops, all) && R.chance(churnPct / 3)) {
+            // compute, release the result (under pessimistic deletion its nodes die at once while the cache still
+            // mentions them), build something else (new nodes may take the freed handles), and ask again
+            const Step last = G.P.steps.back();
+            const bool bin = last[0] == "bin" && last.size() >= 6, un = last[0] == "un" && last.size() >= 5;
+            if (bin || un) {
+                const int dst = atoi(last[bin ? 4 : 3].c_str()), fdst = atoi(last[bin ? 5 : 4].c_str());
+                G.emit({"release", Gen::num(dst)}); G.setDead(dst);
+                for (int j = R.range(0, 2); j > 0; j--) G.genFunction(G.freeSlot(), pool[R.below(uint32_t(pool.size()))], 12);
+                G.emit(last); G.setLive(dst, fdst);
+            }
+        }
     }
     // sometimes: reorder one forest's variables and keep working in it (the rules, the counts and the
     // caches must survive a non-default variable order; operations across different orders are rejected
